@@ -1,368 +1,703 @@
-"""C19 -- PSD and signal utilities (thin partial claim)."""
+"""C19 -- PSD and signal utilities (thin partial claim).
+
+Every rule evaluates the anchored function on symbols with the C19 value engine (c19_sem.py) and decides on *values and roles*: "the array
+returned", "what is stored in it, under which index, inside which loops", "the array handed to np.interp as xp", "the slice of the filter
+output that is kept".  No rule looks at a local's name, at the text of a statement or test, at the order or polarity of `if` arms, at
+whether a block sits in a helper, or at how a loop / a numpy call is spelled."""
 from __future__ import annotations
 
 import ast
+from fractions import Fraction
 
 from . import e2_formula as F
 from .core import AnchorError, Unsupported
-from .e1_srcmodel import dotted, walk_no_nested, parent, ancestors, utext
-from .e2_eval import Evaluator, is_unknown, need
+from .e1_srcmodel import dotted
+from .e2_eval import is_unknown
+from . import c19_sem as S
+from .c19_sem import Run, PyTuple, eq, un, israt, const_of, int_of, find_atoms, top_atoms, placed, ix_parts, unslice, is_sym
 
 PSD = "pyyeti/psd.py"
 DSP = "pyyeti/dsp.py"
 
 
+def _spec_hook(node, ev):
+    """proc_psd_spec(spec) -> (Freq, PSD, npsds): the two arrays are the roots of area / interp"""
+    if (dotted(node.func) or "").rsplit(".", 1)[-1] == "proc_psd_spec":
+        return PyTuple((F.sym("Freq"), F.sym("PSD"), F.sym("npsds")))
+    return NotImplemented
+
+
+def _short(v, n=300):
+    s = repr(v)
+    return s if len(s) <= n else s[:n] + "..."
+
+
+def _undecided(vals):
+    """a value an undecided test has leaked into (merged `ite`) or that could not be lowered: the regime is not the one the rule speaks about"""
+    for v in vals:
+        if v is None or is_unknown(v):
+            return True
+        if isinstance(v, tuple):
+            if _undecided(list(v)):
+                return True
+        elif israt(v) and find_atoms(v, lambda n, a: n == "ite"):
+            return True
+    return False
+
+
+def _chk(ctx, ok, msg, where, detail=None, vals=(), **kw):
+    """ctx.check, except that a mismatch on a value that is not decided is an analysis error (cannot bind), never a violation"""
+    if not ok and _undecided(vals):
+        ctx.error(msg, where, {"not decided": [_short(v) for v in vals if _undecided([v])][:3], "detail": detail})
+        return False
+    return ctx.check(ok, msg, where, detail, **kw)
+
+
+# =============================================================================================================================== R1 area
+
+def _unwrap_loops(v):
+    """loopres(k, n, loopres(k', n', x)) -> ([(k, n), (k', n')], x)"""
+    chain = []
+    while True:
+        a = un(v, "loopres")
+        if a is None:
+            return chain, v
+        chain.append((a[0], a[1]))
+        v = a[2]
+
+
+def _strip_carried(v):
+    while True:
+        a = un(v, "carried")
+        if a is None:
+            return v
+        v = a[0]
+
+
+def _counter_offset(ix, loops):
+    """ix = k + c for one recorded loop counter k and a constant c  ->  (loop record, c)"""
+    for l in loops:
+        c = const_of(ix - l.k) if israt(ix) else None
+        if c is not None:
+            return l, c
+    return None, None
+
+
+def _window(T):
+    """a test that is (the negation of) a two-sided window on the slope symbol s0  ->  (polarity, [(strict, coefficient of s0, rest)])"""
+    pol = True
+    a = un(T, "not")
+    if a is not None:
+        T, pol = a[0], False
+    conj = un(T, "and")
+    if conj is None:
+        disj = un(T, "or")
+        if disj is None:
+            return None
+        conj = []
+        for x in disj:          # not (A or B) = (not A) and (not B) ;  not (e < 0) = (-e <= 0)
+            u = S.unfn(x)
+            if u is None or u[0] not in ("lt0", "le0"):
+                return None
+            conj.append(F.fn("le0" if u[0] == "lt0" else "lt0", -u[1][0]))
+        pol = not pol
+    out = []
+    for x in conj:
+        u = S.unfn(x)
+        if u is None or u[0] not in ("lt0", "le0"):
+            return None
+        e = u[1][0]
+        # e * (positive denominator) keeps the sign only if the denominator is a positive constant: require a constant one
+        if not e.d.is_const():
+            return None
+        try:
+            cf = F.coeffs_in(e.n.scale(1 / e.d.const_value()), "s0")
+        except Unsupported:
+            return None
+        if set(cf) - {0, 1} or 1 not in cf:
+            return None
+        out.append((u[0] == "lt0", F.Rat(cf[1]), F.Rat(cf.get(0, F.Poly()))))
+    return (pol, out) if len(out) == 2 else None
+
+
 def r1_area(ctx):
+    """psd.area: the value returned is an accumulator that starts from zeros and, inside a loop over all segments and a loop over all columns,
+    receives `own element + segment area`; the two segment formulas (evaluated with f2 = f1 e^L, p2 = p1 e^(s L)) are the exact integral of the
+    log-log interpolant and its s -> -1 limit; the limit formula is selected by a narrow window centred on the pole of the general one."""
     fn = ctx.src.func(PSD, "area")
-    loops = [n for n in fn.body if isinstance(n, ast.For)]
-    if len(loops) != 1:
-        raise AnchorError("area: segment loop")
-    outer = loops[0]
-    ok = ast.unparse(outer.iter).replace(" ", "") == "range(Freq.size-1)"
-    ctx.check(ok, "area: every one of the Freq.size - 1 segments is visited", outer, ast.unparse(outer.iter))
-    inner = [n for n in outer.body if isinstance(n, ast.For)]
-    ok = len(inner) == 1 and ast.unparse(inner[0].iter).replace(" ", "") == "range(PSD.shape[1])"
-    ctx.check(ok, "area: every PSD column is visited", inner[0] if inner else outer)
-    if not inner:
-        return
-    body = inner[0].body
+    FREQ, PSDS = F.sym("Freq"), F.sym("PSD")
+    facts = ["PSD.ndim == 2", "Freq.size >= 2", "len(Freq) >= 2", "Freq.shape[0] >= 2"]
     f1, p1, L, s0 = F.sym("f1"), F.sym("p1"), F.sym("L"), F.sym("s0")
 
-    def sub(node, ev):
-        t = utext(node)
-        return {"Freq[i]": f1, "Freq[i+1]": f1 * F.exp(L), "PSD[i,j]": p1, "PSD[i+1,j]": p1 * F.exp(s0 * L)}.get(t, NotImplemented)
+    def evaluate(arm, sub):
+        loads = {"F": [], "P": []}
 
-    vals = {}
-    test = None
+        def rewrite(base, ix, ev):
+            if eq(base, FREQ):
+                if sub is None:
+                    loads["F"].append(ix)
+                    return NotImplemented
+                c = const_of(ix - sub["kseg"])
+                if c == sub["c0"]:
+                    return f1
+                if c == sub["c0"] + 1:
+                    return f1 * F.exp(L)
+            elif eq(base, PSDS):
+                parts = ix_parts(ix)
+                if sub is None:
+                    loads["P"].append(parts)
+                    return NotImplemented
+                if len(parts) == 2 and eq(parts[1], sub["col"]):
+                    c = const_of(parts[0] - sub["kseg"])
+                    if c == sub["c0"]:
+                        return p1
+                    if c == sub["c0"] + 1:
+                        return p1 * F.exp(s0 * L)
+            return NotImplemented
+
+        def oracle(v, ev):
+            return arm if ev.sh.loop_stack else None       # the one data-dependent selector inside the loops: both arms are evaluated
+
+        R = Run(ctx, fn, PSD, facts=facts, call=_spec_hook, rewrite=rewrite, oracle=oracle)
+        return R, loads
+
+    res = {}
+    geom = None
     for arm in (True, False):
-        def cond(t_, ev, arm=arm):
-            return arm
-        ev = Evaluator(env={}, src=ctx.src, subscript=sub, cond=cond,
-                       call=lambda node, ev: (F.fn("abs", need(ev.ev(node.args[0]))) if dotted(node.func) == "abs" else NotImplemented))
-        for st in outer.body:
-            if isinstance(st, ast.Assign):
-                ev.stmt(st)
-        for st in body:
-            if isinstance(st, ast.If):
-                test = st
-            if isinstance(st, ast.AugAssign):
-                continue
-            ev.stmt(st)
-        vals[arm] = (ev.env.get("intarea"), ev.env.get("s"))
-    sp, s_ = vals[True]
-    gen, _ = vals[False]
-    ok = s_ is not None and not is_unknown(s_) and s_.equals(s0)
-    ctx.check(ok, "area: s = log(p2/p1)/log(f2/f1) is the log-log slope of the segment", body[0], None if ok else repr(s_))
-    if gen is None or is_unknown(gen) or sp is None or is_unknown(sp):
-        ctx.error("area: segment formulas", fn, f"{gen} {sp}")
+        R0, loads = evaluate(arm, None)
+        # roles of the two loops: the counter in the Freq loads is the segment counter, the one in the PSD column index the column counter
+        fo = [_counter_offset(ix, R0.loops) for ix in loads["F"] if unslice(ix) is None]          # (a slice is an intermediate: its elements are loaded after it)
+        el = [pr for pr in loads["P"] if len(pr) == 2 and all(unslice(x) is None for x in pr)]          # element loads (rows / columns / slices are intermediates)
+        po = [(_counter_offset(pr[0], R0.loops), pr[1]) for pr in el]
+        if not fo or not el or any(l is None for l, _ in fo) or any(l is None for (l, _), _ in po):
+            ctx.error("area: the loads of the break-point frequencies / PSD values inside the segment loops", fn, {"Freq": [_short(x) for x in loads["F"]]})
+            return
+        seg = fo[0][0]
+        cols = {S._key(c): c for _, c in po}
+        col, cl, cc = None, None, None
+        for c in cols.values():
+            l_, c_ = _counter_offset(c, R0.loops)
+            if l_ is not None and l_ is not seg:
+                col, cl, cc = c, l_, c_
+                break
+        if col is None:
+            col = next(iter(cols.values()))
+        ints = lambda xs: sorted({int(c) if c.denominator == 1 else float(c) for c in xs})      # noqa  (JSON-safe)
+        g = {"seg": seg, "foff": ints(c for _, c in fo), "poff": ints(c for (_, c), _ in po), "one_seg": all(l is seg for l, _ in fo) and all(l is seg for (l, _), _ in po),
+             "ncol": len(cols), "col": col, "colloop": cl, "coloff": None if cc is None else int(cc)}
+        c0 = g["foff"][0]
+        R, _ = evaluate(arm, {"kseg": seg.k, "c0": c0, "col": col})
+        res[arm] = (R, g)
+    R, g = res[True]
+    seg, cl = g["seg"], g["colloop"]
+    size_forms = [R.E(t) for t in ("Freq.size - 1", "len(Freq) - 1", "Freq.shape[0] - 1")]
+    ok = g["one_seg"] and g["foff"] == [0, 1] and any(eq(seg.n, w) for w in size_forms)
+    ctx.check(ok, "area: every one of the Freq.size - 1 segments is visited (the segment counter runs over 0 .. size - 2 and reads break points k and k + 1)", seg.node,
+              None if ok else {"trip count": _short(seg.n), "offsets read": g["foff"]})
+    ok = cl is not None and g["coloff"] == 0 and eq(cl.n, R.E("PSD.shape[1]"))
+    ctx.check(ok, "area: every PSD column is visited", cl.node if cl is not None else fn, None if ok else {"trip count": _short(cl.n) if cl is not None else None})
+    ok = all(len(r[1]["foff"]) == 2 and r[1]["foff"][1] == r[1]["foff"][0] + 1 and r[1]["poff"] == r[1]["foff"] and r[1]["ncol"] == 1 and r[1]["one_seg"] for r in res.values())
+    ctx.check(ok, "area: the segment formulas read the two end points of the segment - consecutive break points k, k + 1 of Freq and rows k, k + 1 of the same PSD column",
+              seg.node, None if ok else {"Freq offsets": g["foff"], "PSD row offsets": g["poff"], "PSD columns": g["ncol"]})
+    if not ok:
+        return          # the formulas below are evaluated on the end points of one segment: nothing more to say when they are not that
+    # ---- the accumulator and the increments
+    incs, accs, tests = {}, {}, {}
+    for arm, (Ra, ga) in res.items():
+        rv = Ra.ret()
+        chain, body = _unwrap_loops(rv)
+        st = un(body, "store") if israt(body) else None
+        if st is None or len(chain) < 2:
+            if israt(rv) and not _undecided([rv]) and not find_atoms(rv, lambda n, a: n in ("loopres", "carried") or n.startswith("call:") or n == "apply"):
+                ctx.fail("area: segment areas are accumulated per column, starting from zero (additivity over segments): acc[j] <- acc[j] + area(segment, column j)", Ra.ret_node(),
+                         {"returned": _short(rv), "consequence": "the value returned does not depend on the segment loops at all"})
+            else:
+                ctx.error("area: the returned value is an array accumulated inside the segment and column loops", Ra.ret_node(), _short(rv))
+            return
+        old, jx, val = st
+        own = Ra.ev.mk_idx(old, jx)
+        inc = val - own
+        clean = not find_atoms(inc, lambda n, a: n in ("carried", "loopres", "store"))
+        accs[arm] = (un(_strip_carried(old), "zeros") is not None, eq(jx, ga["col"]), clean, {S._key(k) for k, _ in chain} >= {S._key(ga["seg"].k), S._key(ga["colloop"].k)} if ga["colloop"] else False,
+                     next((c.node for c in Ra.cells if eq(c.new, body)), fn))
+        incs[arm] = inc
+        ts = [t for t in Ra.sh.tests if t[3] and israt(t[0]) and t[1] is not None and not (is_sym(t[0], "True") or is_sym(t[0], "False")) and _leaves_undecided(Ra, t[0])]
+        keys = {S._key(t[0]) for t in ts}
+        tests[arm] = ts[0] if len(keys) == 1 else None
+    if tests[True] is None or tests[False] is None or S._key(tests[True][0]) != S._key(tests[False][0]):
+        ctx.error("area: exactly one data-dependent test selects between the two segment formulas", fn, [_short(t[0]) for t in (tests[True], tests[False]) if t])
         return
-    # exact integral of p1 (f/f1)^s over [f1, f2], f2 = f1 e^L :  p1 f1 (e^{(s+1) L} - 1)/(s + 1)
-    exact = p1 * f1 * (F.exp((s0 + 1) * L) - 1) / (s0 + 1)
+    T, _, tnode, _ = tests[True]
+    exact = p1 * f1 * (F.exp((s0 + 1) * L) - 1) / (s0 + 1)          # integral of p1 (f/f1)^s over [f1, f2], f2 = f1 e^L
+    lim_exact = p1 * f1 * L                                           # its limit for s -> -1
+    w = _window(T)
+    t_all = S.V(S.Shared(oracle=lambda v, ev: True)).truth(T)
+    if w is not None and t_all is not None:
+        # the leaves of the test were given the truth value `arm`: the window itself is true in the run where truth(T) == polarity
+        sp = incs[True] if t_all == w[0] else incs[False]
+    else:
+        # the selector is not understood: take as "special" the arm that is not the exact integral
+        sp = incs[True] if incs[False].equals(exact) or not incs[True].equals(exact) and incs[True].equals(lim_exact) else incs[False]
+    gen = incs[False] if sp is incs[True] else incs[True]
+    raw = [av for x in (sp, gen) for av, nm, a in find_atoms(x, lambda n, a: n == "idx" and (eq(a[0], FREQ) or eq(a[0], PSDS)))]
+    if raw:
+        ctx.error("area: the segment formulas use the break points in a way that is not understood", tnode, [_short(x) for x in raw])
+        return
     ok = gen.equals(exact)
-    ctx.check(ok, "area: the general formula (f2 p2 - f1 p1)/(s + 1) is the exact integral of the log-log interpolant over the segment", test or fn,
-              None if ok else {"code": repr(gen), "integral": repr(exact)})
+    ctx.check(ok, "area: the general formula (f2 p2 - f1 p1)/(s + 1), s the log-log slope of the segment, is the exact integral of the log-log interpolant over the segment", tnode,
+              None if ok else {"code": _short(gen), "integral": _short(exact)})
     eps = F.sym("eps")
-    ser = F.series(gen.subs({"s0": eps - 1}), "eps", 0)
-    ok = ser.val >= 0 and ser.coef(0).equals(sp)
-    ctx.check(ok, "area: the special-case formula p1 f1 log(f2/f1) is the s -> -1 limit of the general one", test or fn,
-              None if ok else {"limit": repr(ser.coef(0)) if ser.val >= 0 else "singular", "special": repr(sp)})
-    # the special case is selected by a test centred on the singularity of the general formula
-    if test is None:
-        ctx.error("area: special-case test", fn)
-        return
-    den = None
-    for st in test.orelse:
-        if isinstance(st, ast.Assign) and isinstance(st.value, ast.BinOp) and isinstance(st.value.op, ast.Div):
-            den = st.value.right
-    t = test.test
-    ok = den is not None and isinstance(t, ast.Compare) and len(t.ops) == 1 and isinstance(t.ops[0], (ast.Lt, ast.LtE)) \
-        and isinstance(t.left, ast.Call) and dotted(t.left.func) in ("abs", "np.abs") and ast.unparse(t.left.args[0]) == ast.unparse(den)
-    ctx.check(ok, "area: the limit formula is selected by |d| < eps where d is exactly the denominator of the general formula (window centred on the "
-                  "singular slope s = -1, i.e. -10 log10(2) dB/octave, and only there)", test,
-              None if ok else {"test": ast.unparse(t), "denominator": ast.unparse(den) if den is not None else None,
-                               "consequence": "slopes near but not at the singular one (e.g. exactly -3 dB/octave) would be integrated with the limit formula"})
-    if ok:
+    try:
+        ser = F.series(gen.subs({"s0": eps - 1}), "eps", 0)
+        lim = ser.coef(0) if ser.val >= 0 else None
+    except Unsupported:
+        lim = None
+    ok = lim is not None and lim.equals(sp)
+    ctx.check(ok, "area: the special-case formula p1 f1 log(f2/f1) is the s -> -1 limit of the general one", tnode,
+              None if ok else {"limit": _short(lim) if lim is not None else "singular", "special": _short(sp)})
+    if w is None or t_all is None:
+        ctx.error("area: the selector is a two-sided window on the slope", tnode, _short(T))
+    else:
+        pol, bounds = w
+        # the window: two bounds a s0 + b (<|<=) 0 ; centre = mean of the two roots, whatever the sign of a
+        roots = [-b / a for _, a, b in bounds]
+        centre = (roots[0] + roots[1]) / 2
+        den = gen.d if not gen.d.is_const() else exact.d
         try:
-            c = float(ast.literal_eval(t.comparators[0]))
-        except Exception:  # noqa
-            c = None
-        ok = c is not None and 0 < c <= 1e-4
-        ctx.check(ok, "area: the window is narrow (relative error of the limit formula is eps * log(f2/f1) / 2)", test, c)
-    acc = [st for st in body if isinstance(st, ast.AugAssign)]
-    ok = len(acc) == 1 and isinstance(acc[0].op, ast.Add) and ast.unparse(acc[0].target).replace(" ", "") == "_area[j]" and ast.unparse(acc[0].value) == "intarea"
-    ctx.check(ok, "area: segment areas are accumulated per column (additivity over segments)", acc[0] if acc else fn)
+            pole = den.subs({"s0": centre}).is_zero()
+        except Unsupported:
+            pole = False
+        ok = pole and (bounds[0][1] + bounds[1][1]).is_zero()
+        ctx.check(ok, "area: the limit formula is selected by |d| < eps with the window centred exactly on the pole of the general formula (the singular slope s = -1, "
+                      "i.e. -10 log10(2) dB/octave, and only there)", tnode,
+                  None if ok else {"test": _short(T), "centre of the window": _short(centre), "denominator of the general formula": _short(F.Rat(den)),
+                                   "consequence": "slopes near but not at the singular one (e.g. exactly -3 dB/octave) would be integrated with the limit formula"})
+        if ok:
+            hw = const_of((roots[0] - roots[1]) / 2)
+            if hw is None:
+                ctx.error("area: the window is narrow (relative error of the limit formula is eps * log(f2/f1) / 2)", tnode, _short((roots[0] - roots[1]) / 2))
+            else:
+                ok = 0 < abs(hw) <= Fraction(1, 10000)
+                ctx.check(ok, "area: the window is narrow (relative error of the limit formula is eps * log(f2/f1) / 2)", tnode, None if ok else str(abs(hw)))
+    ok = all(a[0] and a[1] and a[2] and a[3] for a in accs.values())
+    ctx.check(ok, "area: segment areas are accumulated per column, starting from zero (additivity over segments): acc[j] <- acc[j] + area(segment, column j)", accs[True][4],
+              None if ok else {str(k): {"starts from zeros": a[0], "stored under the column index": a[1], "increment independent of the accumulator": a[2], "inside both loops": a[3]}
+                               for k, a in accs.items()})
 
+
+def _leaves_undecided(R, T):
+    """True when the truth of T was supplied by the rule's oracle (it is decided neither by constants nor by the regime facts)"""
+    probe = S.V(S.Shared(facts=R.sh.facts))
+    probe.sh.index_syms = R.sh.index_syms
+    return probe.truth(T) is None
+
+
+# =============================================================================================================================== R2 interp
 
 def r2_interp(ctx):
-    """decided on values: each arm of `linear` is evaluated on symbols; spelling (if/else order, early return, temporaries) is immaterial"""
-    from .sem import Sem, split_call, place, and_binop
+    """psd.interp, each regime of `linear` evaluated on symbols: the value returned in the log-log regime is store(A, m, exp(A[m])) with
+    A = interp1d(log Freq, log PSD, ...)(log freq) and m the in-range mask; in the linear regime it is interp1d(Freq, PSD, ...)(freq)"""
     fn = ctx.src.func(PSD, "interp")
-    SIG = ["x", "y", "kind", "axis", "copy", "bounds_error", "fill_value", "assume_sorted"]
-    res = {}
-    for lin in (True, False):
-        def cond(test, ev, lin=lin):
-            if isinstance(test, ast.Name) and test.id == "linear":
-                return lin
-            return None
-        S = Sem(ctx, fn, cond=cond, binop=and_binop, pinned={"Freq": F.sym("Freq"), "PSD": F.sym("PSD")})
-        # spec is unpacked into Freq / PSD before the arms: pin them so both arms speak about the same symbols
-        mk = S.calls("interp1d")
-        use = S.calls("ifunc")
-        res[lin] = (S, mk, use)
-    # ---- log-log arm
-    S, mk, use = res[False]
-    ok = len(mk) == 1 and len(use) == 1
-    a = place(mk[0][1], mk[0][2], SIG) if ok else {}
-    ok = ok and S.same(a.get("x"), "np.log(Freq)") and S.same(a.get("y"), "np.log(PSD)") and len(use[0][1]) == 1 and S.same(use[0][1][0], "np.log(freq)")
-    ctx.check(ok, "interp (log-log): both axes of the specification and the query frequencies are taken to log", mk[0][3] if mk else fn,
-              None if ok else {k: repr(v) for k, v in a.items()})
-    ret = S.ret()
-    cells = S.cells("psdfull")
+
+    def regime(lin):
+        R = Run(ctx, fn, PSD, pins={"linear": "True" if lin else "False"}, call=_spec_hook)
+        v = R.ret()
+        mk = R.calls("interp1d")
+        return R, v, mk
+
+    def applied(v):
+        """apply(interp1d(...), q) -> (placed interp1d arguments, q)"""
+        a = un(v, "apply") if israt(v) else None
+        if a is None or len(a) != 2:
+            return None, None
+        u = S.unfn(a[0])
+        if u is None or not u[0].startswith("call:") or u[0][5:].rsplit(".", 1)[-1] != "interp1d":
+            return None, None
+        return placed("interp1d", u[1]), a[1]
+
+    # ---- log-log regime.  Accepted forms of the value returned (A = interp1d(...)(q), m the in-range mask):
+    #   store(A, m, exp(A[m]))      exp written back into the in-range slots (out-of-range keeps the fill value)
+    #   ite(m, exp(A), 0)           np.where(m, exp(A), 0)
+    #   store(exp(A), not m, 0)     exp of everything, out-of-range zeroed
+    R, v, mk = regime(False)
+    A = mask = None
+    form_ok = False
+    st = un(v, "store") if israt(v) else None
+    it = un(v, "ite") if israt(v) else None
+    if st is not None and un(st[0], "apply") is not None:
+        A, mask = st[0], st[1]
+        form_ok = eq(st[2], F.exp(R.ev.mk_idx(A, mask)))
+    elif st is not None:
+        try:
+            A = F.log(st[0])
+        except Unsupported:
+            A = None
+        mask = S.b_not(st[1])
+        form_ok = A is not None and un(A, "apply") is not None and eq(st[2], F.const(0))
+    elif it is not None:
+        mask = it[0]
+        try:
+            A = F.log(it[1])
+        except Unsupported:
+            A = None
+        form_ok = A is not None and un(A, "apply") is not None and eq(it[2], F.const(0))
+    else:
+        A = v
+    a, q = applied(A)
+    where = mk[0].node if mk else fn
+    if a is None:
+        if v is None or is_unknown(v):
+            ctx.error("interp (log-log): the returned value", R.ret_node(), _short(v))
+            return
+        a = {}
+    ok = R.same(a.get("x"), "np.log(Freq)") and R.same(a.get("y"), "np.log(PSD)") and R.same(q, "np.log(freq)")
+    _chk(ctx, ok, "interp (log-log): both axes of the specification and the query frequencies are taken to log", where,
+         None if ok else {"interp1d": {k: _short(x) for k, x in a.items()}, "query": _short(q)}, [v])
     inr = "(freq >= Freq[0]) & (freq <= Freq[-1])"
-    ok = ret is not None and S.same(ret, "psdfull") and len(cells) == 1 and S.same(cells[0][0], inr) and S.same(cells[0][1], f"np.exp(psdfull[{inr}])") \
-        and S.same(S.init("psdfull"), use[0] and S.ev.ev(use[0][3]))
-    ctx.check(ok, "interp (log-log): exp() is applied to exactly the in-range results (out-of-range stays at the fill value 0)", cells[0][2] if cells else fn,
-              None if ok else {"stores": [(repr(c[0]), repr(c[1])) for c in cells], "returned": repr(ret)})
-    ok = S.same(a.get("fill_value"), "0") and S.same(a.get("bounds_error"), "False")
-    ctx.check(ok, "interp (log-log): out-of-range queries give 0, not an error", mk[0][3] if mk else fn, nontrivial=False)
-    # ---- linear arm
-    S, mk, use = res[True]
-    ok = len(mk) == 1 and len(use) == 1
-    a = place(mk[0][1], mk[0][2], SIG) if ok else {}
-    retv = S.ret()
-    if retv is not None and S.same(retv, "psdfull") and S.init("psdfull") is not None:
-        retv = S.init("psdfull")          # a buffer name: its value is what it was created from (no stores in this arm, checked below)
-    ok = ok and S.same(a.get("x"), "Freq") and S.same(a.get("y"), "PSD") and S.same(use[0][1][0], "freq") and S.same(retv, S.ev.ev(use[0][3])) \
-        and not S.cells("psdfull") and not [c for c in S.ev.calls if c[0] in ("np.log", "np.exp", "math.log", "math.exp", "np.log10")]
-    ctx.check(ok, "interp (linear): no log/exp on either side", mk[0][3] if mk else fn, None if ok else {k: repr(v) for k, v in a.items()})
+    ok = form_ok and mask is not None and R.same(mask, inr)
+    _chk(ctx, ok, "interp (log-log): exp() is applied to exactly the in-range results (out-of-range stays at the fill value 0)", R.ret_node(),
+         None if ok else {"returned": _short(v)}, [v])
+    ok = R.same(a.get("fill_value"), "0") and R.same(a.get("bounds_error"), "False")
+    ctx.check(ok, "interp (log-log): out-of-range queries give 0, not an error", where, nontrivial=False)
+    # ---- linear regime
+    R, v, mk = regime(True)
+    a, q = applied(v)
+    a = a or {}
+    ok = R.same(a.get("x"), "Freq") and R.same(a.get("y"), "PSD") and R.same(q, "freq") and not R.cells
+    ctx.check(ok, "interp (linear): no log/exp on either side", mk[0].node if mk else fn, None if ok else {"returned": _short(v)})
 
 
-def la_x(S, lf_):
-    from .sem import place
-    return place(lf_[0][1], lf_[0][2], ["b", "a", "x", "axis"]).get("x")
+# =============================================================================================================================== R3 resample
+
+FILTERS = {"lfilter", "upfirdn", "convolve", "fftconvolve", "oaconvolve", "filtfilt", "resample_poly", "sosfilt", "convolve1d", "correlate"}
 
 
-def _slice_chain(expr):
-    """x[..., a:b:c][..., d::e] -> (base name, [(start, step), ...]) innermost first"""
-    chain = []
-    n = expr
-    while isinstance(n, ast.Subscript):
-        sl = n.slice
-        if isinstance(sl, ast.Tuple) and len(sl.elts) == 2 and isinstance(sl.elts[0], ast.Constant) and sl.elts[0].value is Ellipsis:
-            sl = sl.elts[1]
-        if not isinstance(sl, ast.Slice) or sl.upper is not None:
-            return None
-        chain.insert(0, (sl.lower, sl.step))
-        n = n.value
-    if not isinstance(n, ast.Name):
+def _is_filter(name, args):
+    return name.startswith("call:") and name.rsplit(".", 1)[-1] in FILTERS
+
+
+def _last_dim(v):
+    """length along the last axis of an array value, where the value shows it"""
+    z = un(v, "zeros")
+    if z is not None:
+        shp = z[0]
+        st = un(shp, "store")
+        if st is not None and int_of(st[1]) == -1:
+            return st[2]
+        t = un(shp, "tuple")
+        if t is not None:
+            return t[-1]
+        sc = un(shp, "seqcat")
+        if sc is not None and un(sc[1], "tuple") is not None:
+            return un(sc[1], "tuple")[-1]
+        return shp if un(shp, "attr:shape") is None else None
+    st = un(v, "store")
+    if st is not None:
+        return _last_dim(st[0])
+    return None
+
+
+def _last_axis_slice(ix):
+    """(..., a:b:s) or a:b:s  ->  (a, b, s) with None for absent"""
+    parts = ix_parts(ix)
+    if len(parts) == 2 and is_sym(parts[0], "Ellipsis"):
+        parts = parts[1:]
+    if len(parts) != 1:
         return None
-    return n.id, chain
+    return unslice(parts[0])
+
+
+class _Resampled:
+    """roles in one regime of dsp.resample, read from the value returned"""
+
+    def __init__(self, R, rv):
+        self.R = R
+        cands = [(av, nm, args) for av, nm, args in top_atoms(rv) if _is_filter(nm, args) or find_atoms(av, _is_filter)] if israt(rv) else []
+        if len(cands) != 1:
+            raise Unsupported(f"the returned array is not (a slice of) one filter output plus the mean: {_short(rv)}")
+        av, nm, args = cands[0]
+        self.rest = rv - av
+        if find_atoms(self.rest, _is_filter):
+            raise Unsupported("the filter output occurs non-linearly in the returned array")
+        self.start, self.stop, self.step = F.const(0), None, F.const(1)
+        if nm == "idx":
+            sl = _last_axis_slice(args[1])
+            if sl is None:
+                raise Unsupported(f"the filter output is not sliced along the last axis: {_short(args[1])}")
+            self.start = sl[0] if sl[0] is not None else F.const(0)
+            self.stop = sl[1]
+            self.step = sl[2] if sl[2] is not None else F.const(1)
+            u = S.unfn(args[0])
+            if u is None or not _is_filter(u[0], u[1]):
+                raise Unsupported(f"what is sliced is not the filter output: {_short(args[0])}")
+            nm, args = u
+        elif not _is_filter(nm, args):
+            raise Unsupported(f"the returned array is not a slice of the filter output: {_short(av)}")
+        self.routine = nm[5:].rsplit(".", 1)[-1]
+        self.pad_front = self.pad_back = F.const(0)
+        self.cat_axis = None
+        self.up = None
+        if self.routine == "lfilter":
+            a = placed("signal.lfilter", args)
+            self.fir, self.den, self.axis, x = a.get("b"), a.get("a"), a.get("axis", F.const(-1)), a.get("x")
+            one = un(self.den, "tuple") if self.den is not None else None
+            if one is not None and len(one) == 1:
+                self.den = one[0]              # lfilter(b, [1.0], x)
+            self.rate = F.const(1)             # output sample k is full-rate sample k
+            c = un(x, "cat") if x is not None else None
+            if c is not None:
+                if len(c) != 4:
+                    raise Unsupported("the filter input is not [zeros, signal, zeros]")
+                self.cat_axis = c[0]
+                self.pad_front, self.pad_back = _last_dim(c[1]), _last_dim(c[3])
+                if self.pad_front is None or self.pad_back is None:
+                    raise Unsupported("length of the padding")
+                x = c[2]
+            st = un(x, "store") if x is not None else None
+            if st is not None:
+                self.buffer, self.slot, self.signal = st
+            else:
+                u = S.unfn(x) if x is not None else None
+                if x is None or (u is not None and (u[0].startswith("call:") or u[0] in ("apply", "cat", "ite", "idx"))):
+                    raise Unsupported(f"the filter input is built in a way that is not modelled: {_short(x)}")
+                self.buffer, self.slot, self.signal = None, None, x
+        elif self.routine == "upfirdn":
+            a = placed("signal.upfirdn", args)
+            self.fir, self.den, self.axis = a.get("h"), F.const(1), a.get("axis", F.const(-1))
+            self.up = a.get("up", F.const(1))
+            self.rate = a.get("down", F.const(1))          # output sample k is full-rate sample k * down
+            self.buffer, self.slot, self.signal = None, None, a.get("x")
+        else:
+            raise Unsupported(f"filter routine {self.routine} is not modelled")
+
+    def stuff_step(self):
+        if self.up is not None:
+            return self.up
+        if self.slot is None:
+            return F.const(1)
+        sl = _last_axis_slice(self.slot)
+        if sl is None or sl[0] is not None or sl[1] is not None:
+            return None
+        return sl[2] if sl[2] is not None else F.const(1)
 
 
 def r3_resample(ctx):
+    """dsp.resample, evaluated in the regimes (p', q' > 1), (q' = 1), (t given); p' = p / gcd, q' = q / gcd.  The lag bookkeeping is generic:
+    whatever routine filters (lfilter on a zero-stuffed, zero-padded signal: output sample k is full-rate sample k; upfirdn: output sample k is
+    full-rate sample k * down), the first retained sample must be the full-rate sample `front padding + M/2` (the FIR is symmetric about
+    M/2) and the retained samples must be q' full-rate samples apart."""
     fn = ctx.src.func(DSP, "resample")
-    M, q, p, pts = F.sym("M"), F.sym("q"), F.sym("p"), F.sym("pts")
-    # names bound to slices of the filter output
-    env_slices = {}   # name -> (start, step) relative to the lfilter output
-    start = {"updata": (F.const(0), F.const(1))}
-    lf = [st for st in walk_no_nested(fn) if isinstance(st, ast.Assign) and isinstance(st.value, ast.Call) and dotted(st.value.func) == "signal.lfilter"]
-    if len(lf) != 1 or ast.unparse(lf[0].targets[0]) != "updata":
-        raise AnchorError("resample: `updata = signal.lfilter(...)`")
-    from . import op4_model as OM
 
-    def ev_int(node):
-        e = Evaluator(env={"M": M, "q": q, "p": p}, binop=OM.int_binop({}))
-        return e.ev(node)
-
-    results = {}
-    for st in walk_no_nested(fn):
-        if st.__class__ is ast.Assign and st.lineno > lf[0].lineno and isinstance(st.targets[0], ast.Name):
-            tgt = st.targets[0].id
-            v = st.value
-            add_m = False
-            if isinstance(v, ast.BinOp) and isinstance(v.op, ast.Add) and ast.unparse(v.right) == "m":
-                v = v.left
-                add_m = True
-            if isinstance(v, ast.Name) and v.id in start:
-                sc = (v.id, [])
-            else:
-                sc = _slice_chain(v)
-            if sc is None or sc[0] not in start:
-                continue
-            s0, k0 = start[sc[0]]
-            for lo, stp in sc[1]:
-                lo_v = ev_int(lo) if lo is not None else F.const(0)
-                st_v = ev_int(stp) if stp is not None else F.const(1)
-                if is_unknown(lo_v) or is_unknown(st_v):
-                    s0 = None
-                    break
-                s0 = s0 + k0 * lo_v
-                k0 = k0 * st_v
-            if s0 is None:
-                ctx.error("resample: slice arithmetic", st, ast.unparse(st))
-                continue
-            if tgt == "RData":
-                doms = [(ast.unparse(a.test).replace(" ", ""), any(st is y for x in a.body for y in ast.walk(x))) for a in ancestors(st) if isinstance(a, ast.If)]
-                arm = "q > 1" if ("q>1", True) in doms else "q == 1"
-                results[arm] = (s0, k0, add_m, st)
-            else:
-                start[tgt] = (s0, k0)
-    for arm, want_step in (("q > 1", q), ("q == 1", F.const(1))):
-        if arm not in results:
-            ctx.fail(f"resample ({arm}): result taken from the filter output", fn, sorted(results))
-            continue
-        s0, k0, add_m, st = results[arm]
-        ok = s0.equals(M)
-        ctx.check(ok, f"resample ({arm}): the first retained sample of the filter output is index M (front padding M//2 + FIR delay M/2), for every p/q", st,
-                  None if ok else {"first index": repr(s0), "expected": "M",
-                                   "consequence": "q * (M // q) != M whenever q does not divide M = 2 pts max(p, q): the output is shifted by a fraction of a sample"})
-        ok = k0.equals(want_step)
-        ctx.check(ok, f"resample ({arm}): every {'q-th' if arm == 'q > 1' else ''} sample is kept after the lag is removed", st, None if ok else repr(k0))
-        ctx.check(add_m, f"resample ({arm}): the mean removed before filtering is added back", st)
-    # ---- the remaining clauses are decided on values (function evaluated on symbols; arms p > 1 and q > 1)
-    from .sem import Sem, place, and_binop
-    ib = OM.int_binop({})
-
-    def binop(node, a, b, ev):
-        r = ib(node, a, b, ev)
-        return r if r is not NotImplemented else and_binop(node, a, b, ev)
-
-    def cond(test, ev):
-        t = utext(test)
-        return {"p>1": True, "q>1": True, "tisNone": True, "getfir": False, "axis==-1": True}.get(t)
-
-    def zeros_call(node, ev):
-        # np.zeros(shape) with `shape` a list that is edited in place: the value is zeros(<the entries of shape stored so far>)
-        if dotted(node.func) == "np.zeros" and len(node.args) == 1 and isinstance(node.args[0], ast.Name) and node.args[0].id in getattr(ev, "buffers", ()):
-            snap = {}
-            for nm, ix, val, st in ev.cells:
-                if nm == node.args[0].id and not is_unknown(ix) and not is_unknown(val):
-                    snap[repr(ix)] = (ix, val)
-            parts = []
-            for k in sorted(snap):
-                parts += [snap[k][0], snap[k][1]]
-            return F.fn("zeros", node.args[0].id, *parts)
+    def gcd_hook(node, ev):
+        if (dotted(node.func) or "").rsplit(".", 1)[-1] == "gcd" and len(node.args) == 2:
+            vs = [ev.ev(a) for a in node.args]
+            if all(israt(v) for v in vs) and {S._key(v) for v in vs} == {S._key(ev.lookup("p") or F.sym("p")), S._key(ev.lookup("q") or F.sym("q"))}:
+                return F.sym("g")          # g = gcd(p, q)
         return NotImplemented
 
-    S0 = Sem(ctx, fn, run=False, binop=binop)
-    red_p, red_q = S0.E("p // math.gcd(p, q)"), S0.E("q // math.gcd(p, q)")
-    S = Sem(ctx, fn, cond=cond, binop=binop, call=zeros_call)
-    ok = S.same(S.env("p"), red_p) and S.same(S.env("q"), red_q)
-    ctx.check(ok, "resample: the ratio is reduced by gcd(p, q) before anything is derived from it", fn, None if ok else {"p": repr(S.env("p")), "q": repr(S.env("q"))})
-    ok = S.same(S.env("M"), "2 * pts * max(p, q)")
-    ctx.check(ok, "resample: M = 2 pts max(p, q) (even: M/2 is the FIR delay in samples)", fn, None if ok else repr(S.env("M")))
-    ok = S.same(S.env("n"), "int(np.ceil(ln * p / q))") and S.same(S.env("ln"), "np.atleast_1d(data).shape[axis]")
-    ctx.check(ok, "resample: the documented output length is ceil(ln p / q) with ln the input length along `axis`", fn, None if ok else repr(S.env("n")))
-    # padding: the array handed to lfilter is (z, stuffed, z) with z = M // 2 zeros along the last axis
-    cat = S.calls("np.concatenate")
-    lf_ = S.calls("signal.lfilter")
-    ok = len(cat) == 1 and len(lf_) == 1
-    if ok:
-        parts = cat[0][1][0] if cat[0][1] else None
-        ax = place(cat[0][1][1:], cat[0][2], ["axis"]).get("axis")
-        ok = isinstance(parts, tuple) and len(parts) == 3 and S.same(parts[0], parts[2]) and S.same(ax, "-1")
-        ok = ok and S.same(parts[0], F.fn("zeros", "shape", S.E("-1"), S.E("M // 2"))) and S.same(la_x(S, lf_), "updata1") and S.same(S.init("updata1"), S.ev.ev(cat[0][3]))
-        la = place(lf_[0][1], lf_[0][2], ["b", "a", "x", "axis"])
-        ok = ok and S.same(la.get("b"), "p * signal.windows.kaiser(M + 1, beta) * (2 * (min(1 / q, 1 / p) / 2) * np.sinc(2 * (min(1 / q, 1 / p) / 2) * (np.arange(M + 1) - M / 2)))") \
-            and S.same(la.get("a"), "1") and S.same(la.get("axis"), "-1")
-    dbg = None if ok or not (cat and lf_) else {"concatenate": repr(cat[0][1]), "lfilter": {k: repr(v)[:200] for k, v in place(lf_[0][1], lf_[0][2], ["b", "a", "x", "axis"]).items()}}
-    ctx.check(ok, "resample: M // 2 zeros are added at both ends of the stuffed signal before the FIR (gain p, Kaiser-windowed sinc with cut-off min(1/p, 1/q)/2 "
-                  "centred at M/2) is applied along the last axis - so M samples of lag are removed and ln*p remain", cat[0][3] if cat else fn, dbg)
-    cells = S.cells("updata1")
-    ok = len(cells) == 1 and S.same(cells[0][0], S.E("updata1[..., ::p]") and S.ev._index_value(ast.parse("x[..., ::p]", mode="eval").body.slice)) \
-        and S.same(cells[0][1], "np.atleast_1d(data) - np.mean(np.atleast_1d(data), axis=-1, keepdims=True)")
-    ini = S.init("updata1")
-    ctx.check(ok, "resample: zero stuffing places the (mean-removed) samples every p-th slot of a zero array (original samples are kept when upsampling)",
-              cells[0][2] if cells else fn, None if ok else [(repr(c[0]), repr(c[1])) for c in cells])
+    def regime(qone=False, t=False):
+        pins = {"axis": "-1", "getfir": "False"}
+        facts = ["p // g > 1", "p > 1", "q > 1"]          # (p >= p / gcd > 1; q >= gcd >= 1 and q = gcd only in the q' = 1 regime, where q is pinned)
+        if qone:
+            pins["q"] = "g"                # q' = 1  <=>  q = gcd(p, q)
+            facts.remove("q > 1")
+        else:
+            facts.append("q // g > 1")
+        if t:
+            facts.append("not:t is None")
+        else:
+            pins["t"] = "None"
+        return Run(ctx, fn, DSP, pins=pins, facts=facts, call=gcd_hook)
 
+    descr = {}
+    for arm, qone in (("q > 1", False), ("q == 1", True)):
+        R = regime(qone)
+        rv = R.ret()
+        Pr, Qr = R.E("p // g"), R.E("q // g")
+        M = R.E("2 * pts * max(P, Q)", P=Pr, Q=Qr)
+        try:
+            if rv is None or is_unknown(rv) or isinstance(rv, tuple):
+                raise Unsupported(f"value returned: {_short(rv)}")
+            D = _Resampled(R, rv)
+        except Unsupported as e:
+            ctx.error(f"resample ({arm}): result taken from the filter output", R.ret_node(), str(e))
+            continue
+        descr[arm] = (R, D, Pr, Qr, M)
+        first = D.start * D.rate
+        want = D.pad_front + M / 2
+        ok = eq(first, want)
+        ctx.check(ok, f"resample ({arm}): the first retained sample is full-rate sample `front padding + M/2` of the filter output (the FIR is centred at M/2), for every p/q",
+                  R.ret_node(), None if ok else {"routine": D.routine, "first retained full-rate index": _short(first), "expected": _short(want),
+                                                 "consequence": "q * (x // q) != x whenever q does not divide x: the output is shifted by a fraction of an output sample "
+                                                                "(original samples are not kept, constants and band-limited signals are not reproduced)"})
+        sp = D.step * D.rate
+        ok = eq(sp, Qr)
+        ctx.check(ok, f"resample ({arm}): retained samples are {'q' if arm == 'q > 1' else '1'} full-rate sample(s) apart after the lag is removed", R.ret_node(),
+                  None if ok else _short(sp))
+        sig = D.signal
+        removed = R.E("data") - sig if israt(sig) else None
+        ok = removed is not None and eq(D.rest, removed)
+        ctx.check(ok, f"resample ({arm}): the mean removed before filtering is added back", R.ret_node(), None if ok else {"added": _short(D.rest), "removed": _short(removed)})
+    if "q > 1" not in descr:
+        return
+    R, D, Pr, Qr, M = descr["q > 1"]
+    ss = D.stuff_step()
+    ok = ss is not None and eq(ss, Pr) and eq(D.step * D.rate, Qr)
+    ctx.check(ok, "resample: the ratio is reduced by gcd(p, q) before anything is derived from it (stuffing step p / gcd, decimation step q / gcd)", fn,
+              None if ok else {"stuffing step": _short(ss), "decimation step": _short(D.step * D.rate)})
+    fir = D.fir
+    lens = [a[0] for _, nm, a in find_atoms(fir, lambda n, a: n in ("call:signal.windows.kaiser", "call:np.arange", "call:windows.kaiser", "call:kaiser"))] if israt(fir) else []
+    ok = len(lens) >= 2 and all(eq(x, M + 1) for x in lens)
+    ctx.check(ok, "resample: the FIR has M + 1 taps with M = 2 pts max(p, q) (even: M/2 is the FIR delay in samples)", fn, None if ok else [_short(x) for x in lens])
+    # documented output length / time vector
+    Rt = regime(False, t=True)
+    tv = Rt.ret()
+    want = "np.arange(n) * (t[1] - t[0]) * data.shape[-1] / n + t[0]"
+    nexp = Rt.E("int(np.ceil(data.shape[-1] * P / Q))", P=Pr, Q=Qr)
+    ok = isinstance(tv, tuple) and len(tv) == 2 and Rt.same(tv[1], want, n=nexp)
+    ctx.check(ok, "resample: the documented output length is ceil(ln p / q), ln the input length along `axis` (the returned time vector has that many samples, spaced dt ln / n)",
+              Rt.ret_node(), None if ok else _short(tv[1] if isinstance(tv, tuple) and len(tv) > 1 else tv))
+    cutoff = "(min(1 / Q, 1 / P) / 2)"
+    firexp = R.E(f"P * signal.windows.kaiser(M + 1, beta) * (2 * {cutoff} * np.sinc(2 * {cutoff} * (np.arange(M + 1) - M / 2)))", P=Pr, Q=Qr, M=M)
+    ok = israt(fir) and eq(fir, firexp) and eq(D.den, F.const(1)) and eq(D.axis, F.const(-1))
+    if D.routine == "lfilter":
+        ok = ok and eq(D.pad_front, M / 2) and eq(D.pad_back, M / 2) and D.cat_axis is not None and eq(D.cat_axis, F.const(-1))
+        if D.stop is not None:
+            # an explicit stop: ceil((stop - start) / step) samples are retained
+            span = D.stop - D.start
+            if not (eq(span, R.E("data.shape[-1] * P", P=Pr)) or eq(span, R.E("int(np.ceil(data.shape[-1] * P / Q)) * Q", P=Pr, Q=Qr))):
+                ctx.error("resample: number of samples retained by a slice with an explicit stop", R.ret_node(), _short(span))
+                ok = False
+        msg = ("resample: M // 2 zeros are added at both ends of the stuffed signal before the FIR (gain p, Kaiser-windowed sinc with cut-off min(1/p, 1/q)/2 "
+               "centred at M/2) is applied along the last axis - so M samples of lag are removed and ln*p remain")
+        dbg = {"front": _short(D.pad_front), "back": _short(D.pad_back), "axis": _short(D.cat_axis), "fir": _short(fir, 200)}
+    else:
+        n_ = R.E("int(np.ceil(data.shape[-1] * P / Q))", P=Pr, Q=Qr)
+        ok = ok and D.stop is not None and eq(D.stop - D.start, n_)
+        msg = ("resample: the FIR (gain p, Kaiser-windowed sinc with cut-off min(1/p, 1/q)/2 centred at M/2) is applied along the last axis and ceil(ln p / q) "
+               "samples are retained")
+        dbg = {"stop - start": _short(D.stop - D.start) if D.stop is not None else None, "fir": _short(fir, 200)}
+    ctx.check(ok, msg, R.ret_node(), None if ok else dbg)
+    demeaned = "data - np.mean(data, axis=-1, keepdims=True)"
+    if D.routine == "lfilter":
+        zshape = un(D.buffer, "zeros") if D.buffer is not None else None
+        ok = D.buffer is not None and zshape is not None and eq(_last_dim(D.buffer), R.E("data.shape[-1] * P", P=Pr)) and eq(ss, Pr) and R.same(D.signal, demeaned)
+        msg = "resample: zero stuffing places the (mean-removed) samples every p-th slot of a zero array of length ln p (original samples are kept when upsampling)"
+    else:
+        ok = eq(ss, Pr) and R.same(D.signal, demeaned)
+        msg = "resample: the (mean-removed) samples are up-sampled by p with zeros (original samples are kept when upsampling)"
+    ctx.check(ok, msg, fn, None if ok else {"buffer": _short(D.buffer), "slot": _short(D.slot), "signal": _short(D.signal)})
+
+
+# =============================================================================================================================== R4 rescale
 
 def r4_rescale(ctx):
     """psd.rescale conserves the mean-square content of every output band by construction: it integrates the input PSD band by band into a
     cumulative mean-square curve over the input band EDGES, interpolates that curve at the output band edges and divides the difference by the
-    output band width.  Decided on values: the cumulative curve is built from (upper - lower edge) * PSD and tabulated at exactly those edges;
-    both interpolations use that table; mean square = upper - lower; PSD = mean square / (the same) band width; with `extendends` the outermost
-    output edges are clamped to the outermost input band edges (not to the centre frequencies - half a band would be lost) and restored
-    afterwards with the mean square recomputed from the PSD."""
-    from .sem import Sem, place
+    output band width.  Decided on values and roles, in the regimes (octave output scale, extendends, uniform input spacing, both outer bands
+    reaching beyond the data) x (P a matrix with one PSD per column | P a vector): the table np.interp interpolates over (xp) is [first lower
+    edge, every upper edge], the curve (fp) is the cumulative sum of (upper - lower edge) * PSD starting from 0, both edge arrays are
+    interpolated over that table and that curve, the returned band PSD is (curve at one set of edges - curve at the other) / (difference of
+    those same edges), the outermost edges are clamped to the outermost input band edges (not the centre frequencies) for this and the nominal
+    ones are used for the reported mean squares."""
     fn = ctx.src.func(PSD, "rescale")
+    for oned in (False, True):
+        _rescale_regime(ctx, fn, oned)
 
-    def cond(test, ev):
-        t = utext(test)
-        table = {"freqisNone": True, "frangeisNone": True, "extendends": True, "oned": False, "np.all(Df==Df[0])": True,
-                 "P.ndim==1": False, "P.shape[0]==1": False, "FL[0]<FLin[0]": True, "FU[-1]>FUin[-1]": True}
-        return table.get(t)
+
+def _rescale_regime(ctx, fn, oned):
+    tag = "rescale (P a vector)" if oned else "rescale"
 
     def call(node, ev):
-        d = dotted(node.func) or ""
-        if d == "get_freq_oct":
-            return (F.sym("Wctr"), F.sym("FL"), F.sym("FU"))
-        if d == "_set_frange":
-            return F.sym("frange")
+        if (dotted(node.func) or "").rsplit(".", 1)[-1] == "get_freq_oct":
+            return PyTuple((F.sym("Wctr"), F.sym("FLo"), F.sym("FUo")))        # documented return order: centres, lower edges, upper edges
         return NotImplemented
 
-    S = Sem(ctx, fn, cond=cond, call=call, env={"F": F.sym("F"), "P": F.sym("P")}, loop_once=True)
-    E = S.E
-    # input band edges (uniform spacing arm) and widths
-    ok = S.same(S.env("FLin"), "F - np.diff(F)[0] / 2") and S.same(S.env("FUin"), "F + np.diff(F)[0] / 2")
-    ctx.check(ok, "rescale (uniform input spacing): input band edges are centre -/+ half the spacing", fn, None if ok else [repr(S.env("FLin")), repr(S.env("FUin"))])
-    FLin, FUin = S.env("FLin"), S.env("FUin")
-    if any(x is None or is_unknown(x) for x in (FLin, FUin)):
-        ctx.error("rescale: input band edges", fn)
+    lo_in, hi_in = "(F - np.diff(F)[0] / 2)", "(F + np.diff(F)[0] / 2)"
+    facts = ["np.all(np.diff(F) == np.diff(F)[0])", f"FLo[0] < {lo_in}[0]", f"FUo[-1] > {hi_in}[-1]"] + (["P.ndim == 1"] if oned else ["P.ndim == 2", "P.shape[0] > 1"])
+    R = Run(ctx, fn, PSD, pins={"freq": "None", "frange": "None", "extendends": "True"}, facts=facts, call=call, exclude=("get_freq_oct",),
+            ranks={"F": 1, "P": 1 if oned else 2, "FLo": 1, "FUo": 1, "Wctr": 1})
+    Pm, ncol = ("P.reshape(-1, 1)", "1") if oned else ("P", "P.shape[1]")
+    ns = R.ret()
+    ip = R.calls("interp")
+    if not isinstance(ns, tuple) or len(ns) != 4 or any(x is None or is_unknown(x) for x in ns):
+        ctx.error(f"{tag}: the four returned values", R.ret_node(), _short(ns))
         return
-    ca, Fa = S.env("ca"), S.env("Fa")
-    want_ca = E("np.vstack((np.zeros((1, cols)), np.cumsum((FUin - FLin).reshape(-1, 1) * P, axis=0)))")
-    ok = S.same(ca, want_ca) and S.same(Fa, "np.hstack((FLin[0], FUin))")
-    ctx.check(ok, "rescale: the cumulative mean square is sum((upper - lower edge) * PSD) starting from 0 and is tabulated at the input band edges "
-                  "[first lower edge, every upper edge]", fn, None if ok else {"ca": repr(ca), "Fa": repr(Fa)})
-    # clamping of the outermost output edges
-    cl = {(repr(ix)): (val, st) for ix, val, st in S.cells("FL")}
-    cu = {(repr(ix)): (val, st) for ix, val, st in S.cells("FU")}
-    fl_cells = S.cells("FL")
-    fu_cells = S.cells("FU")
-    ok = len(fl_cells) == 2 and len(fu_cells) == 2 and S.same(fl_cells[0][0], "0") and S.same(fl_cells[0][1], "FLin[0]") \
-        and S.same(fu_cells[0][0], "-1") and S.same(fu_cells[0][1], "FUin[-1]")
-    ctx.check(ok, "rescale (extendends): an output band reaching beyond the data is clamped to the outermost input band EDGE (lower edge of the first "
-                  "band, upper edge of the last) while the mean square is computed", fl_cells[0][2] if fl_cells else fn,
-              None if ok else {"FL stores": [(repr(i), repr(v)) for i, v, _ in fl_cells], "FU stores": [(repr(i), repr(v)) for i, v, _ in fu_cells]})
-    ok = len(fl_cells) == 2 and len(fu_cells) == 2 and S.same(fl_cells[1][0], "0") and S.same(fl_cells[1][1], S.env("fl")) and S.same(S.env("fl"), "FL[0]") \
-        and S.same(fu_cells[1][0], "-1") and S.same(fu_cells[1][1], S.env("fu")) and S.same(S.env("fu"), "FU[-1]")
-    ctx.check(ok, "rescale (extendends): the nominal outer edges are saved before and restored after the clamp", fl_cells[1][2] if len(fl_cells) > 1 else fn)
-    # interpolation of the cumulative curve at the output edges
-    ip = S.calls("np.interp")
-    ok = len(ip) == 2
-    if ok:
-        a, b = place(ip[0][1], ip[0][2], ["x", "xp", "fp"]), place(ip[1][1], ip[1][2], ["x", "xp", "fp"])
-        ok = S.same(a["x"], "FL") and S.same(b["x"], "FU") and S.same(a["xp"], Fa) and S.same(b["xp"], Fa) and S.same(a["fp"], b["fp"]) \
-            and S.same(a["fp"], F.fn("idx", need(ca), S.ev._index_value(ast.parse("x[:, i]", mode="eval").body.slice)))
-    ctx.check(ok, "rescale: the same cumulative curve, over the same edge table, is interpolated at the lower and at the upper output edges", ip[0][3] if ip else fn)
-    cal_c, cau_c = S.cells("cal"), S.cells("cau")
-    ok = len(cal_c) == 1 and len(cau_c) == 1 and len(ip) == 2 and S.same(cal_c[0][1], S.ev.ev(ip[0][3])) and S.same(cau_c[0][1], S.ev.ev(ip[1][3]))
-    ctx.check(ok, "rescale: cal holds the curve at the lower edges, cau at the upper edges", cal_c[0][2] if cal_c else fn)
-    ns = S.ret()
-    # psdoct (before the edges are restored) = (cau - cal) / (FU - FL); afterwards ms = psdoct * (FU - FL)
-    ok = isinstance(ns, tuple) and len(ns) == 4 and S.same(ns[0], "(cau - cal) * (1 / (FU - FL).reshape(-1, 1))") \
-        and S.same(ns[3], "((cau - cal) * (1 / (FU - FL).reshape(-1, 1))) * (FU - FL).reshape(-1, 1)") and S.same(ns[2], F.fn("call:np.sum", need(ns[3]), F.fn("kw:axis", F.const(0)))) \
-        and S.same(ns[1], "Wctr")
-    ctx.check(ok, "rescale: band PSD = (curve at upper edge - curve at lower edge) / band width; the reported mean square is PSD * nominal band width and its "
-                  "sum is the returned total", S.ret_node(), None if ok else [repr(x)[:200] for x in (ns if isinstance(ns, tuple) else [ns])])
+    if len(ip) != 2 or any(not all(israt(c.args.get(k)) for k in ("x", "xp", "fp")) for c in ip):
+        ctx.error(f"{tag}: the two np.interp calls (cumulative curve at the lower and at the upper output edges)", fn, [(_short(c.args)) for c in ip])
+        return
+    a, b = ip[0].args, ip[1].args
+    # the table and the curve
+    ok = R.same(a["xp"], f"np.hstack(({lo_in}[0], {hi_in}))")
+    _chk(ctx, ok, f"{tag} (uniform input spacing): the cumulative curve is tabulated at the input band edges [first lower edge, every upper edge], the edges being "
+                  "centre -/+ half the spacing", ip[0].node, None if ok else _short(a["xp"]), [a["xp"]])
+    col = un(a["fp"], "idx")
+    cparts = ix_parts(col[1]) if col is not None else []
+    curve = col[0] if col is not None else None
+    want_ca = R.E(f"np.vstack((np.zeros((1, {ncol})), np.cumsum(({hi_in} - {lo_in}).reshape(-1, 1) * {Pm}, axis=0)))")
+    ok = curve is not None and eq(curve, want_ca) and len(cparts) == 2 and eq(cparts[0], S.FULL)
+    _chk(ctx, ok, f"{tag}: the cumulative mean square is sum((upper - lower edge) * PSD) down the bands, starting from 0 (one more row than bands), one column per PSD",
+         ip[0].node, None if ok else {"fp": _short(a["fp"]), "expected curve": _short(want_ca)}, [a["fp"]])
+    ok = eq(a["xp"], b["xp"]) and eq(a["fp"], b["fp"])
+    _chk(ctx, ok, f"{tag}: the same cumulative curve, over the same edge table, is interpolated at the lower and at the upper output edges", ip[1].node,
+         None if ok else {"xp": [_short(a["xp"]), _short(b["xp"])], "fp": [_short(a["fp"]), _short(b["fp"])]}, [a["xp"], b["xp"], a["fp"], b["fp"]])
+    # the edges interpolated at: the octave-band edges with the outermost ones clamped to the outermost input band edges
+    want_lo = R.ev.mk_store(F.sym("FLo"), F.const(0), R.E(f"{lo_in}[0]"))
+    want_hi = R.ev.mk_store(F.sym("FUo"), F.const(-1), R.E(f"{hi_in}[-1]"))
+    xs = [a["x"], b["x"]]
+    ok = (eq(xs[0], want_lo) and eq(xs[1], want_hi)) or (eq(xs[1], want_lo) and eq(xs[0], want_hi))
+    _chk(ctx, ok, f"{tag} (extendends): an output band reaching beyond the data is clamped to the outermost input band EDGE (lower edge of the first band, upper edge of "
+                  "the last) while the mean square is computed", ip[0].node,
+         None if ok else {"interpolated at": [_short(x) for x in xs], "expected": [_short(want_lo), _short(want_hi)]}, xs)
+    # where the results go: column i of a zero array, i the column of the curve, inside one loop over the columns
+    bufs = []
+    trips = [R.E(ncol), R.E("len(np.transpose(c))", c=curve)] if curve is not None else [R.E(ncol)]
+    for c in ip:
+        cell = next((x for x in R.cells if eq(x.val, c.value)), None)
+        loop = c.loops[-1] if c.loops else None
+        if cell is None or loop is None:
+            bufs.append(None)
+            continue
+        sp = ix_parts(cell.ix) if israt(cell.ix) else []
+        good = len(sp) == 2 and eq(sp[0], S.FULL) and len(cparts) == 2 and eq(sp[1], cparts[1]) and eq(sp[1], loop.k) \
+            and un(_strip_carried(cell.old), "zeros") is not None and any(eq(loop.n, w) for w in trips)
+        bufs.append((F.fn("loopres", loop.k, S.as_rat(loop.n), cell.new), good, cell))
+    ok = all(x is not None and x[1] for x in bufs) and ip[0].loops == ip[1].loops
+    _chk(ctx, ok, f"{tag}: for every column i of the PSD, the curve's column i at the lower / upper edges is stored in column i of a zero array (one array per edge set)",
+         bufs[0][2].node if bufs[0] else fn, None if ok else [(_short(x[2].ix), _short(x[2].old)) if x else None for x in bufs], [x[2].ix for x in bufs if x] + [c.value for c in ip])
+    if not ok:
+        return
+    B1, B2 = bufs[0][0], bufs[1][0]
+    # (the expected value is symmetric under exchanging the two calls, not under exchanging the members of one pair only)
+    psd_want = (B2 - B1) * (1 / F.fn("col", b["x"] - a["x"]))
+    fin = (lambda x: R.E("np.ravel(x)", x=x)) if oned else (lambda x: x)
+    ok = eq(ns[0], fin(psd_want))
+    _chk(ctx, ok, f"{tag}: band PSD = (curve at the upper edges - curve at the lower edges) / (upper - lower edges), the edges being the ones interpolated at", R.ret_node(),
+         None if ok else {"returned": _short(ns[0]), "expected": _short(fin(psd_want))}, [ns[0]])
+    ms_want = psd_want * F.fn("col", F.sym("FUo") - F.sym("FLo"))
+    tot_want = R.E("np.sum(ms, axis=0)", ms=ms_want)
+    ok = eq(ns[3], fin(ms_want)) and eq(ns[2], R.E("t[0]", t=tot_want) if oned else tot_want) and eq(ns[1], F.sym("Wctr"))
+    _chk(ctx, ok, f"{tag} (extendends): the nominal outer edges are restored after the clamp - the reported mean square is PSD * nominal band width, its sum over the bands "
+                  "is the returned total, the centre frequencies are the octave centres", R.ret_node(), None if ok else [_short(x, 200) for x in ns[1:]], list(ns[1:]))
 
 
 RULES = [
     ("C19-R1", r1_area, 8),
     ("C19-R2", r2_interp, 4),
     ("C19-R3", r3_resample, 11),
-    ("C19-R4", r4_rescale, 7),
+    ("C19-R4", r4_rescale, 14),
 ]
 LEVEL = "other"
-EXPLANATION = ("Static: psd.area's general formula is the exact integral of the log-log interpolant (symbolic identity), the special case is its s -> -1 limit and is "
-               "selected by a window centred on the general formula's own denominator, all segments/columns are accumulated; psd.interp's log/exp pairing; "
-               "dsp.resample's lag removal / decimation index arithmetic (first kept index = M for every p/q).")
+EXPLANATION = ("Static, decided on values and roles (functions evaluated on symbols, c19_sem.py): psd.area's general formula is the exact integral of the log-log "
+               "interpolant (symbolic identity), the special case is its s -> -1 limit and is selected by a narrow window centred on the pole of the general formula, "
+               "all segments/columns are accumulated from zero; psd.interp's log/exp pairing; dsp.resample's lag removal / decimation index arithmetic (first kept "
+               "full-rate index = front padding + M/2 for every p/q, whatever the filter routine); psd.rescale's cumulative-curve construction.")
 MANIFEST = {
     "text": "Thin partial claim decided statically: (R1) psd.area segment formulas (exact integral, limit, selector centred on the singularity, full coverage and "
-            "accumulation); (R2) psd.interp log/exp pairing and in-range mask; (R3) dsp.resample keeps samples M + q k of the filter output, pads M/2 both sides, "
-            "restores the mean, reduces p/q by gcd; (R4) psd.rescale's band mean squares are differences of one cumulative curve tabulated at the input band "
+            "accumulation); (R2) psd.interp log/exp pairing and in-range mask; (R3) dsp.resample keeps full-rate samples (padding + M/2) + q k of the filter output, pads "
+            "M/2 both sides, restores the mean, reduces p/q by gcd; (R4) psd.rescale's band mean squares are differences of one cumulative curve tabulated at the input band "
             "edges, divided by the same band widths, with the outer edges clamped to input band edges and restored. Not decided: resample's interpolation accuracy, "
             "fixtime's nearest-sample semantics, get_freq_oct band tables (value-level).",
-    "note": "Trusted: CPython ast; verifier/e2_formula.py (exp/log, series); scipy interp1d / lfilter semantics.",
-    "technique": "static formula extraction with exact symbolic integral/limit check; slice-composition index arithmetic",
+    "note": "Trusted: CPython ast; verifier/e2_formula.py (exp/log, series); verifier/c19_sem.py (value engine); scipy interp1d / lfilter / upfirdn semantics.",
+    "technique": "evaluation on symbols (functional arrays, index algebra, three-valued tests from facts, generic loop iteration) with exact symbolic integral/limit check",
 }
